@@ -949,7 +949,18 @@ func runHistory(run *emit.Run, hs *histSpec, tag string) (res *histResult, fatal
 					if err != nil {
 						return nil, err
 					}
+					// (only the valset updates are taken out: that is all SendValsetMsgForChain looks for, and
+					// removing a message makes the queue compute its bytes to sign, which a malformed call may not survive)
 					for _, m := range msgs {
+						cm, cerr := m.ConsensusMsg(e.f.Codec)
+						if cerr != nil {
+							return nil, cerr
+						}
+						if em, ok := cm.(*evmtypes.Message); ok {
+							if _, isV := em.Action.(*evmtypes.Message_UpdateValset); !isV {
+								continue
+							}
+						}
 						if err := e.f.ConsensusKeeper.DeleteJob(actx, queueName(ref), m.GetId()); err != nil {
 							return nil, err
 						}
@@ -1720,6 +1731,10 @@ func TestCorr(t *testing.T) {
 		run.Count("fromhex", map[bool]string{true: "valid", false: "invalid"}[ok])
 		raw := randAddr(run.Rng, run.Rng.Intn(20))
 		unit = append(unit, pending{fmt.Sprintf("C17.Wrap %s %s", cb(raw), cb(wrapJSON(raw))), true, nil})
+		var back evmtypes.JobPayload
+		if jerr := json.Unmarshal(wrapJSON(raw), &back); jerr != nil || back.HexPayload != hex.EncodeToString(raw) {
+			run.Violate("C17:wrapped-document-not-read-back", fmt.Sprintf("json.Unmarshal of the binding's document for %x gives %q (%v)", raw, back.HexPayload, jerr), map[string]any{"raw": hex.EncodeToString(raw)})
+		}
 	}
 	// interleave, so that the shards of the cases file are balanced
 	per := 1
